@@ -38,9 +38,15 @@ namespace Nstd.Rc
   `nested_*`, `mt_calls_admitted`); the bodies in which only the ORDER of acquire and release matters are no longer tied by a
   hand translation alone: see PropsTie.lean (`tie_*`: interpretation of the bodies translated from the current headers = `pre`).
 
-  OPEN (what is still not covered): in-place writes THROUGH an embedded handle (`v.toString().append` on a box whose
-  inner String block is itself shared); the String inside a Variant / Xml::Variant box is still flat content, so the
-  cross-kind calls `Variant = String variable` / `String = variant.toString()` are not in the correspondence; boxed
+  OPEN (what is still not covered): in-place writes THROUGH an embedded handle and the cross-kind calls `Variant = String variable` /
+  `String = variant.toString()`: MODELLED and under the theorems (`vSetS`, `sFromV`, `vAppS` on boxes of kind `tagVStrN`, see below) but
+  NOT TIED to the code: the harness still treats the String inside a box as an internal allocation (`curKind`), so no op line drives these
+  calls, and the string boxes of the other calls (`vSetStr`, `vAppStr`, `xSetStr`) keep their flat content.  Missing for the tie: (i) harness:
+  String data blocks reached through a box are payloads (counter offset of String under `curKind` 1/2), printed as `>b<pid>` of the box;
+  (ii) the flat string boxes replaced by `tagVStrN` in `vSetStr` / `vAppStr` / `vCopy` / Xml text (every string-box call then has the two
+  reads of `vAppS`); (iii) the plain read of the INNER counter is decided in the state after the read of the box counter (`innerSole` in
+  `postN`): exact single-threaded, but under interleaving another thread may release its String handle in between (the model then clones where
+  the code writes in place: safe, but the traces differ) — needs a second read phase in `CallOk` (`pre2`/`post2`) for the drivers; boxed
   values of map payloads and Xml attributes (same container code, not driven; Array payloads are: `aPushV`, `aGetV`);
   totality of the nested calls
   (`apiRunN … = some s` is a hypothesis: fuel of the cascade, fewer than `maxBlocks` allocations, at most `famK` boxed
@@ -488,6 +494,35 @@ example : ∃ s, apiRunN (init nTotal) 0
 example : ∃ s, apiRunN (init nTotal) 0 [.flat (.gNew 0 tagStrU true [97, 98] 0), .flat (.gEdit 0 false [97, 98]), .flat (.gNew 1 tagStr false [] 8), .flat (.sAppend 1 [99]), .flat (.gEdit 1 false [67])] = some s
     ∧ s.slots 0 = .blk 0 ∧ (s.heap 0).map (·.val) = some [97, 98] ∧ s.slots 1 = .blk 1
     ∧ (s.heap 1).map (fun b => (b.val, b.cap)) = some ([67], 8) ∧ s.next = 2 := by
+  refine ⟨_, rfl, ?_⟩
+  decide
+
+/-! ### the String inside a Variant box as a real handle (cross-kind sharing, in-place writes THROUGH an embedded handle)
+    `vSetS` (`V[d] = S[s]`), `sFromV` (`S[d] = v.toString() const`), `vAppS` (`V[d].toString().append(bytes)`) are `NOp` calls built from
+    the existing atomic steps: the String inside a box of kind `tagVStrN` is embedded slot 0 of the box; a write through it is
+    `takeE` (only with the ONLY handle of the box, `mt_embedded_write_sole`), the String call on the scratch slot (plain read of the
+    String counter, in place only with the ONLY handle of the String data, `mt_write_sole`), `putE`.  All `nested_*` theorems,
+    `nested_no_leak` and `mt_calls_admitted` quantify over histories containing them.  MODEL ONLY: see the OPEN block below. -/
+
+set_option maxRecDepth 16000 in
+/-- String variables are slots 0..3, Variant 4..7: S0 = "a" (data block 0); V4 = S0 (box 1, its String shares block 0); S1 = V4.toString()
+    (block 0 now has three handles: S0, S1, the String inside box 1); V5 = V4; V5.toString().append("b"): the shared box is cloned
+    (box 2), the String inside it is detached (block 3) — block 0, still shared, is NOT modified -/
+example : ∃ s, apiRunN (init nTotal) 0
+    [.flat (.sNew 0 [97]), .vSetS 4 0, .sFromV 1 4, .flat (.vCopy 5 4), .vAppS 5 [98]] = some s
+    ∧ (s.heap 0).map (fun b => (b.val, b.ref)) = some ([97], 3) ∧ (s.heap 3).map (fun b => (b.val, b.ref)) = some ([97, 98], 1)
+    ∧ s.slots (embSlotK 1 0) = .blk 0 ∧ s.slots (embSlotK 2 0) = .blk 3 ∧ s.slots 1 = .blk 0 ∧ s.next = 4 ∧ s.viol = 0 := by
+  refine ⟨_, rfl, ?_⟩
+  decide
+
+set_option maxRecDepth 16000 in
+/-- … a second append goes in place through the embedded handle (box 2 and block 3 have one handle each: no new block); once S0 and
+    S1 are gone the String inside box 1 is the only handle of block 0 and is written in place as well; at the end every block has
+    been released exactly once (the String data with the box that held its last handle) -/
+example : ∃ s, apiRunN (init nTotal) 0
+    [.flat (.sNew 0 [97]), .vSetS 4 0, .sFromV 1 4, .flat (.vCopy 5 4), .vAppS 5 [98], .vAppS 5 [99], .flat (.sDel 0), .flat (.sDel 1),
+     .flat (.vClear 5)] = some s
+    ∧ s.next = 4 ∧ s.freed 2 = 1 ∧ s.freed 3 = 1 ∧ s.freed 0 = 0 ∧ (s.heap 0).map (·.ref) = some 1 ∧ s.viol = 0 := by
   refine ⟨_, rfl, ?_⟩
   decide
 
